@@ -990,7 +990,7 @@ def machine_case(draw, max_steps):
 LEGS = [
     Leg("machine", run=run_machine,
         gen=lambda tier: machine_case(100 if tier == "quick" else 150),
-        quick=240, thorough=10000, shards_quick=8, shards_thorough=16,
+        quick=1600, thorough=20000, shards_quick=12, shards_thorough=16,
         nt_floor=0.3,
         rule="histories of 33..100 (quick) / 50..150 (thorough) operations on "
              "two linked controllers: socket of three types, bind(nothing | "
